@@ -336,6 +336,13 @@ func (w *World) setupHyperlane() error {
 	owner := Addr("hyp-owner").String()
 	ctx := w.root
 
+	// The module accounts of the external modules exist, as they do on a chain where those
+	// modules have been used at least once (they are created lazily on first use). Orbiter's own
+	// accounts are left as a fresh chain has them.
+	for _, name := range []string{warptypes.ModuleName, cctptypes.ModuleName, ftftypes.ModuleName, "hyperlane", transfertypes.ModuleName} {
+		w.App.AccountKeeper.GetModuleAccount(ctx, name)
+	}
+
 	res, err := w.run(ctx, &ismtypes.MsgCreateNoopIsm{Creator: owner})
 	if err != nil {
 		return err
